@@ -220,6 +220,8 @@ def _ref_trunc(t, a, p):
 
 
 _op('trunc', lambda c, a, p: [c.rt.trunc(a[0])], _ref_trunc)
+# least significant bit of the scaled integer, as the number 0 or 1 (used by the C18 template; not generated at random)
+_op('lsb', lambda c, a, p: [c.rt.lsb(a[0])], lambda t, a, p: [(Fr(0), Fr(1))])
 
 
 def _ref_sin(t, a, p):
